@@ -8,7 +8,7 @@ use crate::run::{Plan, Sched, Special};
 use crate::world::{Init, InitialWb};
 
 /// properties that have a check in this binary (MANIFEST.json lists the ones that are claimed)
-pub const CLAIMED: [&str; 19] = ["C01", "C02", "C03", "C04", "C08", "C12", "C13", "C14", "C15", "C16", "C17", "C24", "C25", "C26", "C27", "C28", "C29", "C30", "C33"];
+pub const CLAIMED: [&str; 25] = ["C01", "C02", "C03", "C04", "C08", "C12", "C13", "C14", "C15", "C16", "C17", "C24", "C25", "C26", "C27", "C28", "C29", "C30", "C33", "C05", "C31", "C07", "C10", "C18", "C32"];
 
 pub fn runs_for(prop: &str, tier: &str) -> u64 {
     let (q, t) = match prop {
@@ -20,6 +20,9 @@ pub fn runs_for(prop: &str, tier: &str) -> u64 {
         "C04" => (40_000, 1_000_000),
         "C29" | "C30" => (60_000, 2_000_000),
         "C12" | "C13" | "C14" | "C15" | "C16" | "C17" | "C33" => (30_000, 800_000),
+        "C05" | "C31" => (20_000, 400_000),
+        "C07" => (10_000, 300_000),
+        "C10" | "C18" | "C32" => (30_000, 600_000),
         _ => (10_000, 200_000),
     };
     let n = if tier == "thorough" { t } else { q };
@@ -208,6 +211,9 @@ pub fn plan(prop: &str, rng: &mut Rng, hash_key: u64) -> Plan {
                 fams.retain(|(g, _)| g != f);
                 fams.push((*f, *wgt));
             }
+            if !fams.iter().any(|(f, _)| *f == Fam::Sheet) && rng.chance(0.7) {
+                fams.push((Fam::Sheet, 6));
+            }
             if guards && fams.iter().any(|(f, _)| *f == Fam::Struct) {
                 fams.retain(|(f, _)| *f != Fam::Array);
             }
@@ -222,6 +228,55 @@ pub fn plan(prop: &str, rng: &mut Rng, hash_key: u64) -> Plan {
             if prop == "C17" || prop == "C16" {
                 init.initial = InitialWb::Empty;
             }
+        }
+        "C10" | "C18" | "C32" => {
+            let mut fams: Vec<(Fam, u32)> = vec![(Fam::Input, 50), (Fam::Settings, 8), (Fam::Style, 8)];
+            for (f, wgt) in [(Fam::Names, 6), (Fam::Cf, 4), (Fam::Clear, 3), (Fam::Struct, 4), (Fam::Clip, 3), (Fam::Sheet, 5), (Fam::Fill, 2)] {
+                if rng.chance(0.5) {
+                    fams.push((f, wgt));
+                }
+            }
+            if prop == "C32" {
+                fams.retain(|(f, _)| !matches!(f, Fam::Names | Fam::Sheet));
+                fams.push((Fam::Names, 25));
+                fams.push((Fam::Sheet, 20));
+                sched.p_restart_clean = 0.04;
+                sched.p_xlsx_restart = 0.02;
+            }
+            profile.fams = fams;
+            profile.len = rng.range(4, 30) as usize;
+            profile.p_formula = if prop == "C18" { *rng.pick(&[0.2, 0.4]) } else { *rng.pick(&[0.5, 0.7]) };
+            profile.hostile = prop == "C18" && rng.chance(0.5);
+            profile.p_undo = 0.05;
+            profile.p_redo = 0.02;
+            sched.p_lang = if prop == "C18" { 0.03 } else { 0.08 };
+            sched.p_probe = match prop {
+                "C18" => 0.35,
+                "C10" => 0.12,
+                _ => 0.0,
+            };
+        }
+        "C05" | "C31" | "C07" => {
+            // formula-heavy histories: chains, cycles, ranges, cross-sheet references, names,
+            // dynamic arrays whose size depends on other cells; then everything that can leave
+            // stale state behind: undo, structural edits, pastes, clears, restarts
+            let mut fams: Vec<(Fam, u32)> = vec![(Fam::Input, 60), (Fam::Clear, 6), (Fam::Names, 4)];
+            for (f, wgt) in [(Fam::Struct, 8), (Fam::Clip, 6), (Fam::Fill, 3), (Fam::Sheet, 4), (Fam::Array, 4), (Fam::Style, 2)] {
+                if rng.chance(0.6) {
+                    fams.push((f, wgt));
+                }
+            }
+            if guards && fams.iter().any(|(f, _)| *f == Fam::Struct) {
+                fams.retain(|(f, _)| *f != Fam::Array);
+            }
+            profile.fams = fams;
+            profile.p_formula = *rng.pick(&[0.6, 0.8, 0.9]);
+            profile.dynamic = prop == "C31" || rng.chance(if prop == "C07" { 0.7 } else { 0.4 });
+            profile.len = rng.range(4, 30) as usize;
+            profile.p_undo = 0.12;
+            profile.p_redo = 0.06;
+            sched.p_restart_clean = 0.03;
+            sched.p_pause = 0.02;
         }
         "C29" | "C30" => {
             // the workload comes from lines::line_event; the rest of the catalogue is
@@ -280,6 +335,12 @@ pub fn oracle_for(prop: &str) -> Box<dyn Oracle> {
         "C16" => Box::new(crate::structural::Structural::new(crate::structural::Focus::Clip)),
         "C17" => Box::new(crate::structural::Structural::new(crate::structural::Focus::Sheet)),
         "C33" => Box::new(crate::structural::Structural::new(crate::structural::Focus::Meta)),
+        "C07" => Box::new(crate::schedule::ScheduleOracle::new()),
+        "C10" => Box::new(crate::stability::Stability::new(crate::stability::Focus::Config)),
+        "C18" => Box::new(crate::stability::Stability::new(crate::stability::Focus::Retype)),
+        "C32" => Box::new(crate::stability::Stability::new(crate::stability::Focus::Names)),
+        "C05" => Box::new(crate::fixpoint::FixPoint::new(crate::fixpoint::Which::All)),
+        "C31" => Box::new(crate::fixpoint::FixPoint::new(crate::fixpoint::Which::Spills)),
         "C29" => Box::new(crate::lines::LineAttrs::new()),
         "C30" => Box::new(crate::lines::StyleReadback::new()),
         "C25" => Box::new(CorruptImportOracle::new()),
@@ -309,6 +370,24 @@ pub fn special_for(prop: &str) -> Option<Box<Special>> {
                 _ => rng.range(1, 12) as i32,
             };
             Some((crate::ev::Ev::InsertThenDelete { sheet: rng.below(n as u64) as u32, rows, at, n: rng.range(1, 3) as i32 }, None))
+        })),
+        "C10" | "C18" => Some(Box::new(|rng, w, _p| {
+            // type back what the editor shows, into a cell that holds something
+            let model = w.primary.model();
+            let mut cells: Vec<(u32, i32, i32)> = Vec::new();
+            for (si, ws) in model.workbook.worksheets.iter().enumerate() {
+                for (r, row) in &ws.sheet_data {
+                    for c in row.keys() {
+                        cells.push((si as u32, *r, *c));
+                    }
+                }
+            }
+            if cells.is_empty() {
+                return None;
+            }
+            cells.sort_unstable();
+            let (sheet, row, col) = *rng.pick(&cells);
+            Some((crate::ev::Ev::Retype { sheet, row, col }, None))
         })),
         "C29" => Some(Box::new(|rng, w, p| crate::lines::line_event(rng, w, p, false))),
         "C30" => Some(Box::new(|rng, w, p| crate::lines::line_event(rng, w, p, true))),
